@@ -213,6 +213,19 @@ def evalCase (s : S) (d : Doc) : IO Unit := do
     else
       fields := "cmt=viol" :: fields
       extra := s!"CMTDIFF good={tw.good} doc={oneLine tw.cmts} tree={oneLine (specCmts (prepare t))}" :: extra
+    if verbatimCertified t tw then fields := "verb=ok" :: fields
+    else
+      fields := "verb=viol" :: fields
+      extra := s!"VERBDIFF good={tw.good} doc={oneLine tw.verbs} tree={oneLine (specVerb (prepare t))}" :: extra
+    if proseCertified t tw then fields := "prose=ok" :: fields
+    else
+      fields := "prose=viol" :: fields
+      extra := s!"PROSEDIFF good={tw.good} doc={oneLine tw.prose} tree={oneLine (specProse (prepare t))}" :: extra
+    if s.cfg.reorder then fields := "lit=skip-reorder" :: fields
+    else if literalsCertified t tw then fields := "lit=ok" :: fields
+    else
+      fields := "lit=viol" :: fields
+      extra := s!"LITDIFF good={tw.good} doc={oneLine tw.lits} tree={oneLine (specLit (prepare t))}" :: extra
     if let some c := s.cnt then
       fields := (if c == calls then "count=eq" else s!"count=diff:{calls}:{c}") :: fields
     let me := m.erase
